@@ -8,7 +8,7 @@ world description (before the first `begin`):
   topomap <rid> <topo> <entry> …                  entry = m:<ids csv>=<vid> | a:<n>=<vid>
 histories:
   name <kind> <ids csv> <hex>                     name of a symbol
-  begin <aliased> <reset> <shared> <tiebreak>     new process: empty heap, no builders
+  begin <aliased> <reset> <shared> <tiebreak> <missingsorted>   new process: empty heap, no builders
   new <rid> <order csv>
   set <b> align none|axis|dpd:<k> | scalar 0|1 | stable -|<ids csv> | hel 0|1 | dyn <p> <bid> | naming <n>
   bad <b> <code>
@@ -18,6 +18,7 @@ histories:
 natural sorting:
   key <hex>          → tokens `T<hex>` / `N<ip>.<fraction digits>`
   sort <tiebreak> <hex> …       → `sorted <indices> ties=<0|1>`
+  missing <sorted> <registered hex …> | <atoms hex …>   → `amps <hex>=<1 registered|0 zero> …` (final key order)
   merge <tiebreak> <perm csv> | <khex>=<vid> … | …   → `merged consistent=<0|1> ties=<0|1> <khex>=<vid> …`
 -/
 import Ampverif.Model.C06Purity
@@ -109,6 +110,8 @@ def mkWorld (t : Tables) : World where
   symName s := (dget t.names s).getD (s.kind :: 0 :: s.ids)
   ampKey k := k.take 2
   compKey k := k
+  intensityAtoms r _ _ _ := (rinfo t r).own.flatMap fun tp => [[r, tp, 0], [r, tp, 1], [r, tp, 2], [r, tp, 3]]
+  ampStr k := k
 
 def parseAlign (s : String) : Option Align :=
   if s == "none" then some .none
@@ -173,8 +176,8 @@ def handle (d : DState) (line : String) : DState × Option String :=
     ({ d with tables := { d.tables with topo := dset d.tables.topo (r.toNat!, tp.toNat!) m } }, none)
   | ["name", kind, ids, h] =>
     ({ d with tables := { d.tables with names := dset d.tables.names ⟨kind.toNat!, parseCsv ids⟩ (unhex h) } }, none)
-  | ["begin", a, r, s, tb] =>
-    ({ d with variant := ⟨a == "1", r == "1", s == "1", tb == "1"⟩, state := {} }, some "ok")
+  | ["begin", a, r, s, tb, ms] =>
+    ({ d with variant := ⟨a == "1", r == "1", s == "1", tb == "1", ms == "1"⟩, state := {} }, some "ok")
   | ["new", r, order] =>
     let w := mkWorld d.tables
     ({ d with state := (step d.variant w d.state (.newBuilder r.toNat! (parseCsv order))).1 }, some "ok")
@@ -200,7 +203,7 @@ def handle (d : DState) (line : String) : DState × Option String :=
     match d.state.builders[b.toNat!]? with
     | none => (d, some "no-builder")
     | some bs =>
-      let (s', o) := step d.variant w d.state (.formulate b.toNat! (parseCsv order))
+      let (s', o) := step d.variant w d.state (.formulate b.toNat! (parseCsv order) [])
       match o with
       | none => (d, some "no-output")
       | some out =>
@@ -228,6 +231,19 @@ def handle (d : DState) (line : String) : DState × Option String :=
       else isort (fun a b => natKeyLe (natKey a.2) (natKey b.2)) idx
     (d, some ("sorted " ++ String.intercalate "," (sorted.map (toString ·.1)) ++
       s!" ties={if hasTies names then 1 else 0}"))
+  | "missing" :: sorted :: rest =>
+    -- missing <sorted 0|1> <registered keys hex …> | <atoms in iteration order hex …>
+    let groups := (String.intercalate " " rest).splitOn "|"
+    let parse (g : String) : List (String × List Nat) :=
+      ((g.splitOn " ").filter (· != "")).map fun h => (h, unhex h)
+    let regs := parse (groups.getD 0 "")
+    let atoms := parse (groups.getD 1 "")
+    let order := if sorted == "1" then isort (lexLe natLe) (atoms.map (·.2)) else atoms.map (·.2)
+    let amps : List (List Nat × Nat) := ddefaults (regs.map fun p => (p.2, 1)) 0 order
+    let final := isort (fun a b => natKeyLe (natKey a.1) (natKey b.1)) amps
+    let hexOf (cs : List Nat) : String :=
+      (((regs ++ atoms).find? (fun e => e.2 == cs)).map (·.1)).getD "?"
+    (d, some ("amps " ++ String.intercalate " " (final.map fun p => hexOf p.1 ++ "=" ++ toString p.2)))
   | "merge" :: tb :: perm :: rest =>
     let groups := (String.intercalate " " rest).splitOn "|"
     let maps : List (List (String × List Nat × Nat)) := groups.filterMap fun g =>
